@@ -633,7 +633,10 @@ class MQTTBaseProtocol(Protocol):
             request.deferred.callback(response.session)
         else:
             self.state = self.IDLE
-            msg = MQTT_CONNECT_CODES[response.resultCode]
+            try:
+                msg = MQTT_CONNECT_CODES[response.resultCode]
+            except IndexError:
+                msg = "Connection Refused, reserved return code"
             request.deferred.errback(MQTTStateError(response.resultCode, msg))
         self.connReq = None     # to be garbage-collected
       
